@@ -274,10 +274,18 @@ def rule_handover(ctx, rep):
         if not sp:
             rep.bad("C03.handover", fl + ".splice", "leftover callbacks are not handed over to the default helper (lost when the helper is freed)", [frees[0].where()])
         else:
-            nonempty_blocked = set()
-            # block the 'queue empty' edges: atoms  load(cbs_head.next) eq 0 / tail eq &head
-            for t, s, a in pat.branch_edges_on(f, lambda a: a[0] == "eq" and a[1][0] == "load" and "call_rcu_data.cbs_tail" in a[1][1] and not pat.from_fn(t_dummy, "x") if False else False):
-                pass
+            # the hand-over is skipped only when the dying helper's queue was observed empty: a path from entry to free(crdp) that avoids the
+            # splice's exchange takes at least one `observed empty` edge (head.next == NULL / tail == &head)
+            def _empty_obs(a):
+                if a[0] != "eq" or a[1][0] != "load" or not a[1][1].startswith("arg0."):
+                    return False
+                return ("call_rcu_data.cbs_head" in a[1][1] and a[2] == ("c", 0)) or ("call_rcu_data.cbs_tail" in a[1][1] and a[2][0] == "addr" and "call_rcu_data.cbs_head" in a[2][1])
+            eo = [(t.blk.id, s_) for t, s_, a in pat.branch_edges_on(f, _empty_obs)]
+            pat.require(eo, "%s: emptiness test of the dying helper's queue" % fl)
+            hit, par = f.reach([f.entry()], frees, avoid=lambda i: i in sp, edge_ok=pat.block_edge_filter(eo), include_start=True)
+            rep.check(hit is None, "C03.handover", fl + ".nonempty⇒splice", "a helper is freed without hand-over only when its queue was observed empty",
+                      "the helper can be freed without its leftover callbacks being spliced to the default helper although its queue was not observed empty: those callbacks are never invoked",
+                      c01_path(f, hit, par) if hit is not None else [])
             ls = lockset.compute(f)
             rep.check(all("@call_rcu_mutex" in ls.get(x.id, ()) for x in sp), "C03.handover", fl + ".splice-under-mutex", "hand-over splice runs under call_rcu_mutex",
                       "hand-over splice without call_rcu_mutex", [x.where() for x in sp])
